@@ -27,7 +27,22 @@ def sh(cmd, cwd=None, env=None, timeout=7200):
 
 
 def main():
-    pid, sdir, k = sys.argv[1], sys.argv[2], sys.argv[3]
+    if sys.argv[1] == "--rerun":
+        # harness/seedtest.py --rerun <seeded-name> [--skip-tests]: re-run a kept seed against the current check
+        name0 = sys.argv[2]
+        pid = name0.split("-")[0]
+        sdir = os.path.join("/tmp", "reseed", name0)
+        os.makedirs(sdir, exist_ok=True)
+        src = os.path.join(VERIF, "seeded", name0)
+        shutil.copy(os.path.join(src, "patch.diff"), os.path.join(sdir, "patchR.diff"))
+        shutil.copy(os.path.join(src, "demo.py"), os.path.join(sdir, "demoR.py"))
+        if os.path.exists(os.path.join(src, "note.md")):
+            shutil.copy(os.path.join(src, "note.md"), os.path.join(sdir, "noteR.md"))
+        k = "R"
+        RERUN_NAME = name0
+    else:
+        pid, sdir, k = sys.argv[1], sys.argv[2], sys.argv[3]
+        RERUN_NAME = None
     tier = "quick"
     if "--tier" in sys.argv:
         tier = sys.argv[sys.argv.index("--tier") + 1]
@@ -86,7 +101,7 @@ def main():
         sh("git checkout -- .", cwd=wt)
     meta["valid_seed"] = bool(meta.get("patch_applies") and rc0 == 0 and meta.get("demo_patched_rc", 0) != 0
                               and (skip_tests or meta.get("tests_with_patch", {}).get("rc") == 0))
-    name = "%s-%s-%s" % (pid, os.path.basename(sdir.rstrip("/")).replace("seedout-", "s"), k)
+    name = RERUN_NAME or "%s-%s-%s" % (pid, os.path.basename(sdir.rstrip("/")).replace("seedout-", "s"), k)
     out_dir = os.path.join(VERIF, "seeded", name)
     os.makedirs(out_dir, exist_ok=True)
     shutil.copy(patch, os.path.join(out_dir, "patch.diff"))
